@@ -3,9 +3,12 @@ package rules
 import (
 	"fmt"
 	"go/ast"
+	"go/token"
 	"go/types"
 	"sort"
 	"strings"
+
+	"golang.org/x/tools/go/ssa"
 
 	"verif/checker/core"
 )
@@ -125,6 +128,7 @@ func runSibShape(c *core.Ctx) []core.Obligation {
 		}
 	}
 	obs = append(obs, runTwinSearch(c)...)
+	obs = append(obs, cumulativeLookups(c)...)
 	return obs
 }
 
@@ -273,6 +277,83 @@ func runTwinSearch(c *core.Ctx) []core.Obligation {
 				o.Trivial = true
 				obs = append(obs, o)
 			}
+		}
+	}
+	return obs
+}
+
+
+// cumulativeLookups (after round-6 seed C06-r6m3, LaxPolygon.ChainPosition rewritten with sort.SearchInts): the
+// multi-loop shapes find the loop of an edge id in an array of cumulative counts. Loops may be EMPTY (the full
+// LaxPolygon is one empty loop), so the array has repeated entries, and the loop that owns edge e is the LAST one
+// whose start is <= e. Every search therefore keeps going while `start[k] <= e` (or stops at `e < start[k]`); the
+// lower-bound forms `start[k] < e` / `start[k] >= e`, and sort.SearchInts, which is a lower bound, stop at the first
+// of the repeated entries and attribute the edge to an empty loop.
+func cumulativeLookups(c *core.Ctx) []core.Obligation {
+	var obs []core.Obligation
+	isCum := func(v ssa.Value) bool {
+		fr, ok := core.AsFieldLoad(v)
+		return ok && strings.HasPrefix(fr.Name, "cumulative")
+	}
+	isElem := func(v ssa.Value) bool {
+		ld, ok := v.(*ssa.UnOp)
+		if !ok || ld.Op != token.MUL {
+			return false
+		}
+		ia, ok := ld.X.(*ssa.IndexAddr)
+		return ok && isCum(ia.X)
+	}
+	perFunc := map[string]int{}
+	total := 0
+	for _, fn := range c.GeoFuncs() {
+		name := core.FuncName(fn)
+		owner := name
+		if fn.Parent() != nil {
+			owner = core.FuncName(fn.Parent())
+		}
+		n := 0
+		core.AllInstrs(fn, func(in ssa.Instruction) {
+			switch x := in.(type) {
+			case *ssa.BinOp:
+				var op token.Token
+				switch {
+				case isElem(x.X) && !isElem(x.Y):
+					op = x.Op
+				case isElem(x.Y) && !isElem(x.X):
+					op = map[token.Token]token.Token{token.LSS: token.GTR, token.GTR: token.LSS, token.LEQ: token.GEQ, token.GEQ: token.LEQ}[x.Op]
+				default:
+					return
+				}
+				switch op {
+				case token.LEQ, token.GTR:
+					perFunc[owner]++
+					total++
+				case token.LSS, token.GEQ:
+					n++
+					obs = append(obs, core.Ob("R-SIBSHAPE", fmt.Sprintf("cumulative-lookup:%s#%d", name, n), c.Pos(x.Pos()), name, core.Violated,
+						"the search compares a cumulative count with the edge id as `count "+op.String()+" e`, a lower-bound test: where an empty loop repeats a count, the search stops at the empty loop instead of the loop that owns the edge, so ChainPosition(e) and Edge(e) disagree for the first edge after every empty loop"))
+				}
+			case *ssa.Call:
+				f := core.StaticCallee(x)
+				if f == nil || f.Pkg == nil || (f.Pkg.Pkg.Path() != "sort" && f.Pkg.Pkg.Path() != "slices") {
+					return
+				}
+				for _, a := range x.Call.Args {
+					if isCum(a) && (f.Name() == "SearchInts" || f.Name() == "BinarySearch") {
+						n++
+						obs = append(obs, core.Ob("R-SIBSHAPE", fmt.Sprintf("cumulative-lookup:%s#%d", name, n), c.Pos(x.Pos()), name, core.Violated,
+							f.Pkg.Pkg.Path()+"."+f.Name()+" returns the FIRST position whose count is >= e: where an empty loop repeats a count that is the empty loop, not the loop that owns the edge, so ChainPosition(e) and Edge(e) disagree for the first edge after every empty loop"))
+					}
+				}
+			}
+		})
+	}
+	for _, want := range []string{"(*s2.LaxPolygon).Edge", "(*s2.LaxPolygon).ChainPosition", "(*s2.Polygon).Edge", "(*s2.Polygon).ChainPosition"} {
+		key := "cumulative-lookup:" + want
+		if perFunc[want] > 0 {
+			obs = append(obs, core.Ob("R-SIBSHAPE", key, "-", want, core.Discharged, fmt.Sprintf("%d upper-bound comparison(s) of a cumulative count with the edge id", perFunc[want])))
+		} else {
+			obs = append(obs, core.Ob("R-SIBSHAPE", key, "-", want, core.Violated, "the search for the loop that owns an edge id no longer compares the cumulative counts with it as `count <= e` / `e < count`: with empty loops (repeated counts) any other search picks the wrong loop"))
 		}
 	}
 	return obs
